@@ -123,7 +123,7 @@ PROPERTIES={
    extra=['contracts:c01_extra'], require_cover=False,
    assumptions=["block footprints as extracted by AstHelper are the real ones; blocks are deterministic"]),
  'C02': dict(level='other',
-   claim="Mixed. Proved: (1) SimpleSchedulePass.schedule_intra_cycle (the Kahn scheduler) - for arbitrary block sets, arbitrary constraint sets, every iteration order of the Python sets/dicts involved and every outcome of random.shuffle: on normal return update_schedule is a duplicate-free list of exactly the combinational blocks (final_upblks minus update_ff) in which every constraint (u,v) between scheduled blocks has u strictly before v, and an exception can only leave the function when not every block could be scheduled (check_schedule under its own contract); three loop invariants with ghost predecessor sets and a finite-set cardinality function; (2) Connectable._overlap decides bit-overlap of two index/slice ranges exactly (all integers); (3) HeuristicTopoPass.schedule_intra_cycle (Kahn with a priority queue) satisfies the same contract as (1); (4) GenDAGPass._process_value_constraints, for arbitrary read/write sets of update blocks and net blocks, arbitrary explicit constraints and arbitrary signal hierarchies (parent chains of any depth, any sibling-slice overlap relation): for every combinational writer block a and other block b with a write and a read on the same signal, on a signal and one of its signal ancestors (either way round), or on overlapping sibling slices, all_constraints contains (a,b) - or (b,a) exactly when an explicit constraint says so - and every explicit U-U constraint is in all_constraints (20 loop invariants, ghost position in the parent chain; signal structure methods as pure uninterpreted functions). Bounded stand-in: on the design zoo (262 designs incl. struct fields, nested fields, overlapping slices, net forwarding, cycles, registers) GenDAGPass orders every writer block/net step before every block that reads an overlapping bit (bit ranges computed independently from the signal objects), constraint_objs covers the communicated bits, and every scheduler (dynamic; simple with 6 seeds; heuristic-topological) places each block exactly once and respects every constraint.",
+   claim="Mixed. Proved: (1) SimpleSchedulePass.schedule_intra_cycle (the Kahn scheduler) - for arbitrary block sets, arbitrary constraint sets, every iteration order of the Python sets/dicts involved and every outcome of random.shuffle: on normal return update_schedule is a duplicate-free list of exactly the combinational blocks (final_upblks minus update_ff) in which every constraint (u,v) between scheduled blocks has u strictly before v, and an exception can only leave the function when not every block could be scheduled (check_schedule under its own contract); three loop invariants with ghost predecessor sets and a finite-set cardinality function; (2) Connectable._overlap decides bit-overlap of two index/slice ranges exactly (all integers); (3) HeuristicTopoPass.schedule_intra_cycle (Kahn with a priority queue) satisfies the same contract as (1); (4) GenDAGPass._process_value_constraints, for arbitrary read/write sets of update blocks and net blocks, arbitrary explicit constraints and arbitrary signal hierarchies (parent chains of any depth, any sibling-slice overlap relation): for every combinational writer block a and other block b with a write and a read on the same signal, on a signal and one of its signal ancestors (either way round), or on overlapping sibling slices, all_constraints contains (a,b) - or (b,a) exactly when an explicit constraint says so - every explicit U-U constraint is in all_constraints, and constraint_objs records for such a pair the signal that caused it - the read signal for the rules seen from the reader's side (same signal / written ancestor / overlapping sibling slice), the written signal for the rule seen from the writer's side (read ancestor) (20 loop invariants, ghost position in the parent chain; signal structure methods as pure uninterpreted functions). Bounded stand-in: on the design zoo (262 designs incl. struct fields, nested fields, overlapping slices, net forwarding, cycles, registers) GenDAGPass orders every writer block/net step before every block that reads an overlapping bit (bit ranges computed independently from the signal objects), constraint_objs covers the communicated bits, and every scheduler (dynamic; simple with 6 seeds; heuristic-topological) places each block exactly once and respects every constraint.",
    note="GenDAGPass._process_value_constraints, HeuristicTopoPass, DynamicSchedulePass (SCC condensation) and Mamba2020Pass are not under discharged contracts (zoo only); lists whose order is irrelevant to the code (Q, Es[u], update_schedule) are abstracted by their element sets with duplicate-freeness proved at every append; positions are the ghost map 'number of blocks appended before'; finite-set cardinality facts (card >= 0, card = 0 iff empty, +-1 on insert/delete, subset with equal cardinality is equality) are assumed; MAMBA_DAG assumed unset; method constraints and WrapGreenletPass only through 24 zoo designs (blocks calling blocking / non-blocking methods under M- or U-chains); OpenLoopCLPass is not covered. Labelled bounded.",
    explanation="one small function proved deductively; the pass-level contract is evaluated natively on an enumerated design zoo (bounded)",
    extra=['contracts:c02_extra'], require_cover=False, assumptions=["AstHelper read/write extraction"]),
